@@ -381,19 +381,44 @@ func exclusiveKeys(c *Ctx, r *Report, rule string) {
 	um := c.fn("fat2.Transaction.UnmarshalJSON")
 	// the comparison expectedJSONLen != len(data)
 	var sum ssa.Value
-	allInstrs(um, func(ins ssa.Instruction) {
-		bo, ok := ins.(*ssa.BinOp)
-		if !ok || (bo.Op != token.NEQ && bo.Op != token.EQL) {
-			return
+	isBytes := func(t types.Type) bool {
+		sl, ok := t.Underlying().(*types.Slice)
+		if !ok {
+			return false
 		}
-		for _, pair := range [][2]ssa.Value{{bo.X, bo.Y}, {bo.Y, bo.X}} {
-			if lc, ok := pair[1].(*ssa.Call); ok {
-				if bi, ok := lc.Call.Value.(*ssa.Builtin); ok && bi.Name() == "len" && isIntType(pair[0].Type()) && sliceHas(lc.Call.Args[0], func(v ssa.Value) bool { p, ok := v.(*ssa.Parameter); return ok && p.Name() == "data" }) {
+		b, ok := sl.Elem().Underlying().(*types.Basic)
+		return ok && b.Kind() == types.Uint8
+	}
+	for _, g := range c.family(um) { // the comparison may have been moved into a helper shared by the unmarshalers
+		allInstrs(g, func(ins ssa.Instruction) {
+			bo, ok := ins.(*ssa.BinOp)
+			if !ok || (bo.Op != token.NEQ && bo.Op != token.EQL) {
+				return
+			}
+			for _, pair := range [][2]ssa.Value{{bo.X, bo.Y}, {bo.Y, bo.X}} {
+				lc, ok := pair[1].(*ssa.Call)
+				if !ok {
+					continue
+				}
+				bi, ok := lc.Call.Value.(*ssa.Builtin)
+				if !ok || bi.Name() != "len" || !isIntType(pair[0].Type()) || !isBytes(lc.Call.Args[0].Type()) {
+					continue
+				}
+				if g == um {
 					sum = pair[0]
+					continue
+				}
+				// in a helper: the expected length is one of its parameters; take what Transaction.UnmarshalJSON passes
+				if i := ownParam(pair[0], g); i >= 0 {
+					for _, cs := range c.familyCallSites(g) {
+						if cs.Parent() == um && i < len(cs.Common().Args) {
+							sum = cs.Common().Args[i]
+						}
+					}
 				}
 			}
-		}
-	})
+		})
+	}
 	if sum == nil {
 		r.viol(rule, "Transaction.UnmarshalJSON length comparison", c.pos(um.Pos()), "no comparison of an expected length with len(data) found: duplicate and unknown keys are not rejected")
 		return
